@@ -124,6 +124,78 @@ theorem apply_zero (f : FilterFn) (res : Res) (hn : res.values.length = 0) :
   have := apply_zero' (filterMatch f res) res.values rfl hn
   simp [filterApply, this]
 
+/-! ### Apply twice -/
+
+mutual
+/-- ⟦e⟧ at a measurement depends only on the name, the configuration and that measurement -/
+theorem denote_local (re : ReOracle) (res res' : Res) (i j : Nat)
+    (hn : res.name = res'.name) (hc : res.config = res'.config) (hv : res.values[i]? = res'.values[j]?) :
+    ∀ e, denote re res i e = denote re res' j e
+  | .and es => by simp only [denote]; exact denoteAll_local re res res' i j hn hc hv es
+  | .or es => by simp only [denote]; exact denoteAny_local re res res' i j hn hc hv es
+  | .not e => by simp only [denote]; rw [denote_local re res res' i j hn hc hv e]
+  | .mtch key off mt => by
+    simp only [denote, termHolds, keyValue, Res.view, hn, hc, hv]
+theorem denoteAll_local (re : ReOracle) (res res' : Res) (i j : Nat)
+    (hn : res.name = res'.name) (hc : res.config = res'.config) (hv : res.values[i]? = res'.values[j]?) :
+    ∀ es, denoteAll re res i es = denoteAll re res' j es
+  | [] => by simp [denoteAll]
+  | e :: es => by
+    simp only [denoteAll]
+    rw [denote_local re res res' i j hn hc hv e, denoteAll_local re res res' i j hn hc hv es]
+theorem denoteAny_local (re : ReOracle) (res res' : Res) (i j : Nat)
+    (hn : res.name = res'.name) (hc : res.config = res'.config) (hv : res.values[i]? = res'.values[j]?) :
+    ∀ es, denoteAny re res i es = denoteAny re res' j es
+  | [] => by simp [denoteAny]
+  | e :: es => by
+    simp only [denoteAny]
+    rw [denote_local re res res' i j hn hc hv e, denoteAny_local re res res' i j hn hc hv es]
+end
+
+/-- every kept element sits at a position where the predicate holds -/
+theorem keepFrom_get (p : Nat → Bool) : ∀ (vs : List Value) (k j : Nat) (v : Value),
+    (keepFrom p vs k)[j]? = some v → ∃ i, k ≤ i ∧ vs[i - k]? = some v ∧ p i = true
+  | [], k, j, v, h => by simp [keepFrom] at h
+  | a :: vs, k, j, v, h => by
+    rw [keepFrom_cons] at h
+    by_cases hp : p k = true
+    · simp only [hp, if_true] at h
+      cases j with
+      | zero =>
+        simp at h; subst h
+        exact ⟨k, Nat.le_refl _, by simp, hp⟩
+      | succ j =>
+        simp only [List.getElem?_cons_succ] at h
+        obtain ⟨i, h1, h2, h3⟩ := keepFrom_get p vs (k + 1) j v h
+        refine ⟨i, by omega, ?_, h3⟩
+        have e : i - k = (i - (k + 1)) + 1 := by omega
+        rw [e]; simpa using h2
+    · simp only [hp] at h
+      obtain ⟨i, h1, h2, h3⟩ := keepFrom_get p vs (k + 1) j v h
+      refine ⟨i, by omega, ?_, h3⟩
+      have e : i - k = (i - (k + 1)) + 1 := by omega
+      rw [e]; simpa using h2
+
+/-- **apply_idempotent**: filtering an already filtered result with the same filter keeps every
+remaining measurement (`Filter.Apply` twice = once, for the values). -/
+theorem apply_idempotent (re : ReOracle) (e : Filter) (f : FilterFn) (res : Res) (h : walk re e = .ok f) :
+    (filterApply f (filterApply f res).1).1.values = (filterApply f res).1.values := by
+  obtain ⟨hv1, hn1, hc1, _, _⟩ := apply_spec re e f res h
+  obtain ⟨hv2, _, _, _, _⟩ := apply_spec re e f (filterApply f res).1 h
+  rw [hv2]
+  unfold kept
+  rw [keepIdx_eq]
+  apply keepFrom_all
+  intro j _ hj
+  have hj' : j < (filterApply f res).1.values.length := by omega
+  obtain ⟨v, hv⟩ : ∃ v, (filterApply f res).1.values[j]? = some v := ⟨_, List.getElem?_eq_getElem hj'⟩
+  have hk : (keepFrom (fun i => denote re res i e) res.values 0)[j]? = some v := by
+    have : (kept re e res)[j]? = some v := by rw [← hv1]; exact hv
+    exact this
+  obtain ⟨i, _, hi2, hi3⟩ := keepFrom_get _ res.values 0 j v hk
+  rw [← denote_local re res (filterApply f res).1 i j hn1.symm hc1.symm (by rw [hv]; simpa using hi2)]
+  exact hi3
+
 /-! ### match_pure -/
 
 /-- a result that differs only in the numbers of its measurements -/
